@@ -9,7 +9,7 @@ from ..client.lsp import LspServer, apply_edits, uri_of
 from ..gen import prog as P
 from ..gen import render
 
-KNOBS = {"p_import": 0.0, "max_bytes": 200, "top_stmts": 8}
+KNOBS = {"p_import": 0.0, "max_bytes": 200, "top_stmts": 8, "p_test": 0.35}
 NONASCII = ['.text "é€"', '.text "𝄞 clef"', "nop // ünï 𝄞 cödé", "/* 𝄞𝄞 */ nop", '.text "a" // é', "lda #1 /* € */ // 𝄞"]
 
 
